@@ -190,7 +190,7 @@ Definition dt_is_expired (now : Z) (d : dt) : bool :=
   else false.
 
 Definition dt_can_be_triggered (now : Z) (d : dt) : bool :=
-  if dt_in_effect now d && dt_is_triggered now d then false
+  if dt_is_triggered now d && (d_fixed d || dt_in_effect now d) then false   (* /repo 51cd8e9 fix: triggered fixed downtimes never again *)
   else if dt_is_expired now d then false
   else if (now <? d_start d) || (d_end d <? now) then false
   else true.
